@@ -1,6 +1,7 @@
 import Driver.Util
 import Driver.WsAsyncSpec
 import Sonic.Model.WsAsync
+import Sonic.Model.WsAsyncObs
 
 /-! Model acceptor for `wsconc` traces (C17): every trace line becomes a label of `Sonic.Model.WsAsync.step true`;
 what the kernel decided (bytes accepted by a write, frames brought in by a read) is taken from the `?` lines, everything
@@ -17,20 +18,21 @@ structure W where
   reported : Nat := 0               -- frames of `st.wire` the peer has already reported
   max : Nat := 524288
 
-def frameSize (len : Nat) : Nat := 2 + (if len ≤ 125 then 0 else if len ≤ 65535 then 2 else 8) + 4 + len
+open Sonic.Model.WsAsyncObs (frameSize Call)
 
-def parseAction (max : Nat) : List String → Option Action
+/-- a `call` line (or an action of a handler program) as the observation function of the refinement theorem reads it
+(`Sonic.Model.WsAsyncObs.Call`: `Call.action` is the model label, `Call.ev` the monitor event) -/
+def parseCallC : List String → Option Call
   | "read" :: cb :: _ => do pure (.read (← nat? cb))
   | "readmsg" :: cb :: n :: _ => do pure (.readMsg (← nat? cb) (← nat? n))
-  | "write" :: cb :: _ :: n :: _ => do
-      let n ← nat? n
-      let cb ← nat? cb
-      pure (if n > max then .writeTooBig cb else .write cb (frameSize n))
-  | "writeframe" :: cb :: _ :: _ :: n :: _ => do pure (.writeFrame (← nat? cb) (frameSize (← nat? n)))
+  | "write" :: cb :: ty :: n :: _ => do pure (.write (← nat? cb) (← nat? ty) (← nat? n))
+  | "writeframe" :: cb :: fin :: op :: n :: _ => do pure (.writeFrame (← nat? cb) (← bool? fin) (← nat? op) (← nat? n))
   | "flush" :: cb :: _ => do pure (.flush (← nat? cb))
-  | "close" :: cb :: _ :: reason :: _ => do pure (.close (← nat? cb) (frameSize (2 + (← hex? reason).length)))
+  | "close" :: cb :: code :: reason :: _ => do pure (.close (← nat? cb) (← nat? code) (← hex? reason))
   | "poll" :: _ => some .poll
   | _ => none
+
+def parseAction (max : Nat) (toks : List String) : Option Action := (parseCallC toks).map (·.action max)
 
 def splitOnSemi (toks : List String) : List (List String) :=
   (toks.foldl (fun (acc : List (List String)) t =>
@@ -38,14 +40,13 @@ def splitOnSemi (toks : List String) : List (List String) :=
       | [] => [[t]]
       | cur :: r => (cur ++ [t]) :: r) [[]]).reverse.filter (· ≠ [])
 
+/-- what the model looks at in a frame of the peer: the abstraction of the refinement theorem -/
 def inFrameOf (fin : Bool) (rsv op : Nat) (masked : Bool) (payload : List UInt8) : InFrame :=
-  let o : InOp := match op with
-    | 0 => .cont | 1 => .text | 2 => .binary | 8 => .close | 9 => .ping | 10 => .pong | _ => .reserved
-  { op := o, fin := fin, len := payload.length, viol := rsv != 0 || masked,
-    closeOk := payload.length ≥ 2 && Sonic.Spec.WsStream.replyCode payload == Sonic.Spec.WsStream.closeCodeOf payload }
+  Sonic.Model.WsAsyncObs.absFrame { fin := fin, rsv := rsv, op := op, masked := masked, payload := payload }
 
 def resOf : String → Res
-  | "nil" => .ok | "cancelled" => .cancelled | "eof" => .eof | "toobig" => .tooBig | _ => .err
+  | "nil" => .ok | "cancelled" => .cancelled | "eof" => .eof | "toobig" => .tooBig
+  | s => if s.startsWith "proto-" then .proto else .err
 
 def showState : WsState → String
   | .active => "active" | .closedByUs => "closedbyus" | .closedByPeer => "closedbypeer" | .closeAcked => "closeacked"
@@ -127,8 +128,12 @@ def mstep (w0 : W) (ln : Driver.Line) : Except String (W × List String) := do
     pure (w', tagsOf w.st w'.st l ++ (match w0.st.stack with | .resume .. :: _ | .again .. :: _ => tagsOf w0.st w.st .tau | _ => []))
   match ln.kind, ln.toks with
   | '<', "call" :: r =>
-    match parseAction w.max r with
-    | some a => let w' ← stepL w (.call a) "call"; fin w' (.call a)
+    match parseCallC r with
+    | some c =>
+      -- the monitor is fed `c.ev` (Driver/WsAsyncSpec.parseCall): the two readings of the line must agree
+      if Driver.WsAsyncSpec.parseCall r != some c.ev then throw "the model driver and the monitor driver read this call differently"
+      let a := c.action w.max
+      let w' ← stepL w (.call a) "call"; fin w' (.call a)
     | none => throw "unparsable call"
   | '<', "skip" :: r =>
     match parseAction w.max r with
